@@ -1333,6 +1333,16 @@ impl<'a, 'b, W: Write> Serializer for &'a mut YamlSerializer<'b, W> {
         variant: &'static str,
         value: &T,
     ) -> Result<()> {
+        // Inside a flow collection there are no block mappings: write `{Variant: value}`.
+        if self.in_flow > 0 {
+            self.write_space_if_pending()?;
+            self.out.write_str("{")?;
+            self.write_plain_or_quoted(variant)?;
+            self.out.write_str(": ")?;
+            value.serialize(&mut *self)?;
+            self.out.write_str("}")?;
+            return Ok(());
+        }
         // If we are the value of a mapping key, YAML forbids "key: Variant: value" inline.
         // Emit the variant mapping on the next line indented one level. Also, do not insert
         // a space after the colon when the value may itself be a mapping; instead, defer
@@ -1511,6 +1521,20 @@ impl<'a, 'b, W: Write> Serializer for &'a mut YamlSerializer<'b, W> {
         variant: &'static str,
         _len: usize,
     ) -> Result<Self::SerializeTupleVariant> {
+        // Inside a flow collection there are no block collections: write `{Variant: [a, b]}`.
+        if self.in_flow > 0 {
+            self.write_space_if_pending()?;
+            self.out.write_str("{")?;
+            self.write_plain_or_quoted(variant)?;
+            self.out.write_str(": [")?;
+            let depth = self.depth;
+            return Ok(TupleVariantSer {
+                ser: self,
+                depth,
+                flow: true,
+                first: true,
+            });
+        }
         // Same placement rules as for struct variants: the variant name is a mapping key.
         if self.pending_space_after_colon {
             // Value position after a map key: the variant mapping starts on the next line,
@@ -1525,6 +1549,8 @@ impl<'a, 'b, W: Write> Serializer for &'a mut YamlSerializer<'b, W> {
             return Ok(TupleVariantSer {
                 ser: self,
                 depth: base + 1,
+                flow: false,
+                first: true,
             });
         }
         if self.at_line_start {
@@ -1542,6 +1568,8 @@ impl<'a, 'b, W: Write> Serializer for &'a mut YamlSerializer<'b, W> {
         Ok(TupleVariantSer {
             ser: self,
             depth: depth_next,
+            flow: false,
+            first: true,
         })
     }
 
@@ -1660,6 +1688,20 @@ impl<'a, 'b, W: Write> Serializer for &'a mut YamlSerializer<'b, W> {
         variant: &'static str,
         _len: usize,
     ) -> Result<Self::SerializeStructVariant> {
+        // Inside a flow collection there are no block mappings: write `{Variant: {a: 1, b: 2}}`.
+        if self.in_flow > 0 {
+            self.write_space_if_pending()?;
+            self.out.write_str("{")?;
+            self.write_plain_or_quoted(variant)?;
+            self.out.write_str(": {")?;
+            let depth = self.depth;
+            return Ok(StructVariantSer {
+                ser: self,
+                depth,
+                flow: true,
+                first: true,
+            });
+        }
         // If we are the value of a mapping key, YAML forbids keeping a nested mapping
         // on the same line (e.g., "key: Variant:"). Move the variant mapping to the next line
         // indented under the parent mapping's base depth.
@@ -1679,6 +1721,8 @@ impl<'a, 'b, W: Write> Serializer for &'a mut YamlSerializer<'b, W> {
             return Ok(StructVariantSer {
                 ser: self,
                 depth: depth_next,
+                flow: false,
+                first: true,
             });
         }
         // Otherwise (top-level or sequence context), emit the variant name at current depth.
@@ -1698,6 +1742,8 @@ impl<'a, 'b, W: Write> Serializer for &'a mut YamlSerializer<'b, W> {
         Ok(StructVariantSer {
             ser: self,
             depth: depth_next,
+            flow: false,
+            first: true,
         })
     }
 }
@@ -2053,12 +2099,23 @@ pub struct TupleVariantSer<'a, 'b, W: Write> {
     ser: &'a mut YamlSerializer<'b, W>,
     /// Target indentation depth for the fields.
     depth: usize,
+    /// Whether the variant is written in flow style (`{Variant: [a, b]}`, inside a flow collection).
+    flow: bool,
+    /// Whether the next field is the first (comma handling in flow style).
+    first: bool,
 }
 impl<'a, 'b, W: Write> SerializeTupleVariant for TupleVariantSer<'a, 'b, W> {
     type Ok = ();
     type Error = Error;
 
     fn serialize_field<T: ?Sized + Serialize>(&mut self, value: &T) -> Result<()> {
+        if self.flow {
+            if !self.first {
+                self.ser.out.write_str(", ")?;
+            }
+            self.first = false;
+            return value.serialize(&mut *self.ser);
+        }
         self.ser.write_indent(self.depth)?;
         self.ser.out.write_str("- ")?;
         self.ser.at_line_start = false;
@@ -2068,6 +2125,10 @@ impl<'a, 'b, W: Write> SerializeTupleVariant for TupleVariantSer<'a, 'b, W> {
         value.serialize(&mut *self.ser)
     }
     fn end(self) -> Result<()> {
+        if self.flow {
+            self.ser.out.write_str("]}")?;
+            return Ok(());
+        }
         self.ser.last_value_was_block = true;
         self.ser.pending_inline_map = false;
         self.ser.after_dash_depth = None;
@@ -2301,6 +2362,10 @@ pub struct StructVariantSer<'a, 'b, W: Write> {
     ser: &'a mut YamlSerializer<'b, W>,
     /// Target indentation depth for the fields.
     depth: usize,
+    /// Whether the variant is written in flow style (`{Variant: {a: 1}}`, inside a flow collection).
+    flow: bool,
+    /// Whether the next field is the first (comma handling in flow style).
+    first: bool,
 }
 impl<'a, 'b, W: Write> SerializeStructVariant for StructVariantSer<'a, 'b, W> {
     type Ok = ();
@@ -2312,6 +2377,15 @@ impl<'a, 'b, W: Write> SerializeStructVariant for StructVariantSer<'a, 'b, W> {
         value: &T,
     ) -> Result<()> {
         let text = scalar_key_to_string(&key, self.ser.yaml_12)?;
+        if self.flow {
+            if !self.first {
+                self.ser.out.write_str(", ")?;
+            }
+            self.first = false;
+            self.ser.out.write_str(&text)?;
+            self.ser.out.write_str(": ")?;
+            return value.serialize(&mut *self.ser);
+        }
         self.ser.write_indent(self.depth)?;
         self.ser.out.write_str(&text)?;
         // Defer spacing/newline decision to the value serializer similarly to map entries.
@@ -2325,6 +2399,9 @@ impl<'a, 'b, W: Write> SerializeStructVariant for StructVariantSer<'a, 'b, W> {
         result
     }
     fn end(self) -> Result<()> {
+        if self.flow {
+            self.ser.out.write_str("}}")?;
+        }
         Ok(())
     }
 }
